@@ -34,7 +34,7 @@ for k in known:
             r['result'] = 'revert-does-not-apply (later commits changed the same lines)'
         else:
             cache = os.path.join(ROOT, '.cache', 'selftest.%d' % os.getpid())
-            p = subprocess.run(['./check', prop, '--tier', 'quick'], cwd=ROOT, env=dict(os.environ, VERIF_REPO=wt, VERIF_CACHE=cache), capture_output=True, text=True, errors='replace')
+            p = subprocess.run(['./check', prop, '--tier', 'quick'], cwd=ROOT, env=dict(os.environ, VERIF_REPO=wt, VERIF_CACHE=cache, VERIF_EVIDENCE_DIR=os.path.join(cache, 'evidence')), capture_output=True, text=True, errors='replace')
             keys = re.findall(r'^  key=(\S+)', p.stdout, re.M)
             r['exit'] = p.returncode
             r['keys'] = keys[:6]
